@@ -64,6 +64,7 @@ type Loc struct {
 	Idx   string
 	Elem  types.Type
 	Cell  string
+	Owner string
 }
 
 type FnVal struct {
@@ -87,6 +88,7 @@ type SV struct {
 	Fn   *FnVal
 	MapT *types.Map
 	Go   types.Type
+	Owner string // slices loaded from a list header: the list reference
 }
 
 func term(t string, s Sort) SV { return SV{K: KTerm, T: t, S: s} }
